@@ -87,6 +87,10 @@ def parse_tlc_output(out, res):
     elif re.search(r'Invariant (\S+) is violated', out):
         res.status = 'invariant'
         res.violated = re.search(r'Invariant (\S+) is violated', out).group(1)
+    elif re.search(r'The invariant of (\S+) is equal to FALSE', out):
+        # an invariant that does not depend on the variables (a predicate over recorded constants) is false
+        res.status = 'invariant'
+        res.violated = re.search(r'The invariant of (\S+) is equal to FALSE', out).group(1)
     elif 'Deadlock reached' in out:
         res.status = 'deadlock'
     elif re.search(r'Action property (\S+) is violated', out):
@@ -206,7 +210,7 @@ class Ctx:
     def build_harness(self):
         return build_harness()
 
-    def harness(self, args, input_obj=None, timeout=1800, env_extra=None, check=True):
+    def harness(self, args, input_obj=None, timeout=1800, env_extra=None, check=True, crash_ok=False):
         """Run the harness binary; input_obj (list of JSON values) is written as ndjson to a file
         passed via --in; returns list of decoded ndjson output records."""
         exe = build_harness()
@@ -229,8 +233,14 @@ class Ctx:
                                stdout=subprocess.PIPE, stderr=subprocess.PIPE, text=True)
         except subprocess.TimeoutExpired:
             raise Infra('harness timeout after %ds: %s' % (timeout, ' '.join(args)))
-        if p.returncode != 0 and check:
-            raise Infra('harness failed (%d): %s\n%s\n%s' % (p.returncode, ' '.join(args), p.stdout[-3000:], p.stderr[-6000:]))
+        self.last_crash = None
+        if p.returncode != 0:
+            crash = crash_summary(p.stderr)
+            if crash and crash_ok:
+                # the real code brought the process down (panic in a goroutine nobody can recover, fatal error)
+                self.last_crash = crash
+            elif check:
+                raise Infra('harness failed (%d): %s\n%s\n%s' % (p.returncode, ' '.join(args), p.stdout[-3000:], p.stderr[-6000:]))
         recs = []
         if os.path.exists(outp):
             with open(outp) as fh:
@@ -302,6 +312,19 @@ class Ctx:
             print('  signature: %s' % sig)
         shutil.rmtree(self.scratch, ignore_errors=True)
         return 1 if self.violations else 0
+
+
+def crash_summary(stderr):
+    """First panic / fatal error line of a crashed Go process, with the first gnark frame - None if the crash
+    is not attributable to gnark code (then it is an infrastructure problem)."""
+    m = re.search(r'^(panic: .*|fatal error: .*)$', stderr, re.M)
+    if not m:
+        return None
+    frames = re.findall(r'^(github\.com/consensys/gnark[^\s(]*)', stderr[m.start():], re.M)
+    frames = [f for f in frames if 'verifhook' not in f]
+    if not frames:
+        return None
+    return '%s @ %s' % (m.group(1)[:160], frames[0])
 
 
 def load_known_findings():
